@@ -318,9 +318,10 @@ func JSONLine(v interface{}) string {
 // RawRow is one flat row as returned: key string, period end tick, values by
 // field name.
 type RawRow struct {
-	Key  string             `json:"k"`
-	Per  int64              `json:"p"`
-	Vals map[string]float64 `json:"v"`
+	Key  string                 `json:"k"`
+	Per  int64                  `json:"p"`
+	Vals map[string]float64     `json:"v"`
+	Dims map[string]interface{} `json:"d,omitempty"`
 }
 
 // RawQuery runs sql and returns the flat rows undecoded, in the order delivered.
@@ -339,8 +340,9 @@ func (n *Node) RawQuery(sql string, includeMem bool, timeout time.Duration) ([]R
 			names = f.Names()
 			return nil
 		}, func(row *core.FlatRow) (bool, error) {
-			r := RawRow{Key: KeyString(bytemap.ByteMap(row.Key).AsMap()), Per: int64(time.Unix(0, row.TS).Sub(Epoch) / tick),
-				Vals: map[string]float64{}}
+			dims := bytemap.ByteMap(row.Key).AsMap()
+			r := RawRow{Key: KeyString(dims), Per: int64(time.Unix(0, row.TS).Sub(Epoch) / tick),
+				Vals: map[string]float64{}, Dims: dims}
 			for i, v := range row.Values {
 				if i < len(names) {
 					r.Vals[names[i]] = v
